@@ -2,7 +2,7 @@
    Statements only. *)
 From Coq Require Import List Arith Bool.
 Import ListNotations.
-From PySM Require Import Impl.Engine Proofs.EngineFrame Proofs.EngineProofs.
+From PySM Require Import Impl.Engine Proofs.EngineFrame Proofs.EngineProofs Proofs.EngineLog.
 
 (* every executed transition is exactly this chain of group executions, each starting in the
    configuration where the previous one ended: validators, conditions (all hold), before,
@@ -69,6 +69,33 @@ Theorem C02_each_admitted_callback_runs :
     call_group beh nested rm g x ws c = Ok c' vs -> length vs = length (filter (admitted x) ws).
 Proof. exact call_group_length. Qed.
 Print Assumptions C02_each_admitted_callback_runs.
+
+(* exactly once: a group execution that completes has logged one invocation per admitted callback,
+   in executor order, and no other invocation (run-to-completion; action / validator groups, whose
+   wrappers hold one callback each) *)
+Theorem C02_each_admitted_callback_exactly_once :
+  forall beh rm g x ws c c' vs,
+    (forall w, In w ws -> single w) ->
+    call_group beh flat_nested rm g x ws c = Ok c' vs ->
+    exists l, log c' = rev l ++ log c /\
+              called l = map (fun cb => (g, cb)) (flat_map w_cbs (filter (admitted x) ws)).
+Proof. exact call_group_calls_each_admitted_once. Qed.
+Print Assumptions C02_each_admitted_callback_exactly_once.
+
+(* what callbacks observe: every callback of the first half is logged with the stored state and engine
+   depth the half started with (the source), every callback of the second half with the target *)
+Theorem C02_callbacks_of_first_half_see_source :
+  forall beh rm d f t x c, Rres (sees d f) c (activate_pre beh flat_nested rm t x c).
+Proof. exact sees_activate_pre. Qed.
+Print Assumptions C02_callbacks_of_first_half_see_source.
+
+Theorem C02_callbacks_of_second_half_see_target :
+  forall beh rm d f t x c,
+    Rres (sees d f) c
+      (do (c1, _n) <- (if a_internal t then Ok c [] else call_group beh flat_nested rm GEnter x (a_enter t) c);
+       do (c2, _a) <- call_group beh flat_nested rm GAfter x (a_after t) c1; Ok c2 tt).
+Proof. exact sees_activate_post_body. Qed.
+Print Assumptions C02_callbacks_of_second_half_see_target.
 
 (* initial activation: only the enter group of the start state, under the `__initial__` trigger *)
 Theorem C02_initial_activation :
